@@ -5,3 +5,26 @@ CONTRACTS = {}
 def contract(qual, **kw):
     CONTRACTS[qual] = kw
     return kw
+
+
+# ---- result makers for call sites: a fresh value of the declared shape, constrained only by `ensures`
+def arr_result(ty, kind='ndarray', n_of=None):
+    def make(E, env):
+        import z3
+        from vf.values import fresh_name
+        n = z3.Int(fresh_name('res.len'))
+        E.assume(n >= 0)
+        return E.new_arr(n, ty, kind=kind, base='res')
+    return make
+
+
+def frame_result(cols_of):
+    """cols_of(env) -> {column: type}"""
+    def make(E, env):
+        import z3
+        from vf.values import fresh_name, Frame
+        n = z3.Int(fresh_name('res.nrows'))
+        E.assume(n >= 0)
+        cols = {c: E.new_arr(n, ty, kind='series', base='res.' + c) for c, ty in cols_of(env).items()}
+        return Frame(E.new_ident(), n, cols)
+    return make
